@@ -22,6 +22,8 @@ type Event struct {
 	HasErr      bool
 	CGas        uint64 // scope.Contract.Gas at the time of the callback
 	Digest      string // world digest before this step (set by an OnState hook)
+	JVal        []byte // at a value-journal step (0xe6) with well-formed operands: the packed field of the slot's current word
+	HasJVal     bool
 	Digest2     string // at a CREATE/CREATE2 step and at the next step of the same frame: world digest without the creating account's nonce
 	ErrIsRevert bool   // err == vm.ErrExecutionReverted (identity)
 	ErrIsOog    bool   // err == vm.ErrOutOfGas (identity)
